@@ -30,13 +30,15 @@ EXTENDS Gates, TLC, Json, IOUtils
 M == INSTANCE Machine
 
 Cases == ndJsonDeserialize(IOEnv.VERIF_TRACES)
-VARIABLES id, k, m, slog, verdict
-vars == <<id, k, m, slog, verdict>>
+VARIABLES id, k, m, slog, verdict, sub
+vars == <<id, k, m, slog, verdict, sub>>
 Case == Cases[id]
 AsSet(s) == { s[i] : i \in DOMAIN s }
 MaxSteps == 600
 
-Init == /\ id \in DOMAIN Cases /\ k = 0 /\ verdict = "running" /\ slog = << >>
+(* a case is a SEQUENCE of subroutines of one application (registers, arrays and qubits persist from one to the   *)
+(* next); each is transpiled on its own                                                                        *)
+Init == /\ id \in DOMAIN Cases /\ k = 0 /\ verdict = "running" /\ slog = << >> /\ sub = 1
         /\ m = M!NewMachine(AsSet(Cases[id].addrs), Cases[id].umsize, Cases[id].meas)
 
 (* quantum log entries as gate records of module Gates (qubits 1..NQ) *)
@@ -104,19 +106,23 @@ Compare(mm, sl) ==
 (* one instruction of the source program per step *)
 Step ==
   /\ verdict = "running" /\ m.status = "run" /\ k < MaxSteps
-  /\ LET nm == M!StepSub(m, Case.prog)
-         ins == IF m.pc < Len(Case.prog) THEN Case.prog[m.pc + 1] ELSE [mn |-> "", ops |-> << >>]
+  /\ LET prog == Case.progs[sub]
+         nm == M!StepSub(m, prog)
+         ins == IF m.pc < Len(prog) THEN prog[m.pc + 1] ELSE [mn |-> "", ops |-> << >>]
          new == SubSeq(nm.qlog, Len(m.qlog) + 1, Len(nm.qlog))
          freed == ins.mn = "qfree" /\ nm.status = "run" /\ nm.pc = m.pc + 1
-     IN  /\ m' = nm /\ k' = k + 1 /\ UNCHANGED <<id, verdict>>
+     IN  /\ m' = nm /\ k' = k + 1 /\ UNCHANGED <<id, verdict, sub>>
          /\ slog' = IF freed THEN Append(slog, GateRec("qfree", <<M!Val(m.regs[ins.ops[1]])>>, << >>)) ELSE slog \o MapSpec(new)
+NextSub ==     \* the subroutine is over: the next one starts on the state it left
+  /\ verdict = "running" /\ m.status = "done" /\ sub < Len(Case.progs) /\ k < MaxSteps
+  /\ m' = M!StartSub(m) /\ sub' = sub + 1 /\ k' = k + 1 /\ UNCHANGED <<id, slog, verdict>>
 Finish ==
-  /\ verdict = "running" /\ (m.status # "run" \/ k >= MaxSteps)
-  /\ UNCHANGED <<id, k, m, slog>>
+  /\ verdict = "running" /\ ((m.status # "run" /\ ~(m.status = "done" /\ sub < Len(Case.progs))) \/ k >= MaxSteps)
+  /\ UNCHANGED <<id, k, m, slog, sub>>
   /\ verdict' = IF m.status = "run" THEN "rig-error-source-does-not-terminate"
                 ELSE IF m.status # "done" THEN "rig-error-source-" \o m.status \o "-" \o m.fkind
                 ELSE LET d == Compare(m, slog) IN IF d = "" THEN "ok" ELSE d
-Next == Step \/ Finish
+Next == Step \/ NextSub \/ Finish
 Spec == Init /\ [][Next]_vars
 
 Report == verdict \in {"running", "ok"} \/ PrintT(<<"VERDICT", "C08", verdict, id, k, "">>)
